@@ -20,6 +20,7 @@ CONSTANTS Peers,            \* set of peer names (strings), e.g. {"p1","p2"}
           KnownDeviations,  \* names of deviations accepted as known findings
           Acts,             \* action kinds offered by Inputs (generator / MC)
           MaxVal,           \* data values 1..MaxVal
+          MaxReq,           \* bound on the number of distinct request counters handed out to local features
           GhostCap,         \* cap of the ghost counters nsub/nbind (0 = ghosts off)
           Tiny,             \* set of action kinds offered with a minimal argument domain (for full history trees)
           Rich              \* set of action kinds for which Inputs also offers the invalid / unusual argument variants
@@ -71,6 +72,9 @@ AnnEnts == {"1", "2"}               \* entities that the inputs entadd / entrem 
 CatFeats(e) == {f \in RemoteNames \ {"nm"} : RF[f].ent = e}      \* catalogue features of entity e
 
 Vals == 1..MaxVal
+UcEnts == IF "adduc" \in Tiny THEN {"1"} ELSE {"1", "2"}
+UcActors == IF "adduc" \in Tiny THEN {"CEM"} ELSE {"CEM", "EV"}
+UcNames == {"ucA", "ucB"}
 
 ---------------------------------------------------------------------------
 (* State *)
@@ -86,6 +90,13 @@ InitSt == [ conn  |-> {},                          \* peers with a connection (S
             cbind |-> {},                           \* [k, p, r]  client-side binding bookkeeping
             data  |-> [c \in Cells |-> 0],          \* abstract data version per cell (0 = initial)
             rdata |-> [p \in Peers |-> 0],          \* cached data of the peer's server feature s14 (function limit)
+            \* requests of the local client feature K1 and callbacks (C14).  Request counters are abstracted to
+            \* ids 1, 2, .. in the order in which they are first handed out.
+            ucs   |-> {},                          \* use-case registry: [e, actor, name, ver, av, sc] (C20)
+            nid   |-> 0,                           \* ids handed out so far
+            unans |-> [p \in Peers |-> 0],          \* id of K1's unanswered read request to p.s14 (0 = none)
+            cbs   |-> {},                          \* [k, h, cb] response callbacks registered on local feature k for id h
+            rcbs  |-> {},                          \* [k, cb]    result callbacks registered on local feature k
             \* ghosts: number of registry insertions so far (capped).  No outcome depends on them; they only keep
             \* states with a different insertion history apart, so that the transition cover also reaches the
             \* hidden state of the code (id counters, slice capacity) behind one abstract registry value
@@ -113,7 +124,8 @@ NoEnts == {}
 \* ref: "req" = references the message counter of the inbound datagram of this step, "none" = no reference
 Dg(k, ok, src, dst, fn, val, ents) ==
     [k |-> k, ok |-> ok, ref |-> IF k = "notify" THEN "none" ELSE "req",
-     src |-> src, dst |-> dst, fn |-> fn, val |-> val, ents |-> ents]
+     src |-> src, dst |-> dst, fn |-> fn, val |-> val, ents |-> ents, ucs |-> {}]
+WithUcs(d, ucs) == [d EXCEPT !.ucs = ucs]
 ResOK(s, c)        == Dg("result", TRUE,  s, c, "", -1, NoEnts)
 ResErr(s, c)       == Dg("result", FALSE, s, c, "", -1, NoEnts)
 Reply(s, c, fn, v) == Dg("reply",  TRUE,  s, c, fn, v, NoEnts)
@@ -127,7 +139,10 @@ Ack(a, s, c) == IF a.ack THEN {ResOK(s, c)} ELSE {}
 \* events: [t, chg, p, e, c, s]   (t in dev/ent/sub/bind/data)
 Ev(t, chg, p, e, c, s) == [t |-> t, chg |-> chg, p |-> p, e |-> e, c |-> c, s |-> s]
 
-Outcome(st, out, ev, ret, dev) == [st |-> st, out |-> out, ev |-> ev, ret |-> ret, dev |-> dev]
+\* cbf: callbacks invoked by the step, [k, cb, kind, h, good] (good: called with the received data and the
+\* originating remote feature)
+Outcome(st, out, ev, ret, dev) == [st |-> st, out |-> out, ev |-> ev, ret |-> ret, dev |-> dev, cbf |-> {}]
+WithCbf(o, cbf) == [o EXCEPT !.cbf = cbf]
 Ideal == "ideal"
 
 ---------------------------------------------------------------------------
@@ -183,7 +198,7 @@ DisconnectOut(st, a) ==
     LET p == a.p IN
     IF p \notin st.conn
     THEN { Outcome(st, NoOut, {Ev("dev", "remove", p, "", "", "")}, "ok", Ideal) }
-    ELSE { Outcome([st EXCEPT !.conn = @ \ {p}, !.addr = @ \ {p}, !.known[p] = {}, !.feats[p] = {}, !.rdata[p] = 0,
+    ELSE { Outcome([st EXCEPT !.conn = @ \ {p}, !.addr = @ \ {p}, !.known[p] = {}, !.feats[p] = {}, !.rdata[p] = 0, !.unans[p] = 0,
                                !.subs = @ \ OfPeer(st.subs, p), !.binds = @ \ OfPeer(st.binds, p),
                                !.csub = @ \ OfPeer(st.csub, p), !.cbind = @ \ OfPeer(st.cbind, p)],
                    NoOut,
@@ -363,19 +378,29 @@ RemoteTypeFns(c) == IF RF[c].type = "NodeManagement" THEN {"usecase", "destlist"
 
 ListEnts(st, p, pl) == {[c |-> x.c, s |-> x.s] : x \in OfPeer(IF pl = "subdata" THEN st.subs ELSE st.binds, p)}
 
-RecvOut(st, a) ==
+\* callbacks of local feature k fired by a reply (accepted) or result referencing id h; they are consumed
+RespFired(st, k, h) == {[k |-> k, cb |-> x.cb, kind |-> "resp", h |-> h, good |-> TRUE] : x \in {y \in st.cbs : y.k = k /\ y.h = h}}
+ResFired(st, k, h)  == {[k |-> k, cb |-> x.cb, kind |-> "res", h |-> h, good |-> TRUE] : x \in {y \in st.rcbs : y.k = k}}
+Consume(st, k, h)   == [st EXCEPT !.cbs = {y \in @ : ~(y.k = k /\ y.h = h)}]
+\* any datagram from p that references K1's unanswered request re-enables sending it
+Answered(st, a) == IF a.ref # 0 /\ st.unans[a.p] = a.ref THEN [st EXCEPT !.unans[a.p] = 0] ELSE st
+
+RecvOut0(st, a) ==
     LET p == a.p  c == a.c  s == a.s
         err == { Outcome(st, OutTo(p, {ResErr(s, c)}), {}, "ok", Ideal) }
         nothing == { Outcome(st, NoOut, {}, "ok", Ideal) }
     IN
     IF ~RKnown(st, p, c) THEN nothing
     ELSE IF a.cls = "result" THEN
-         \* never any result in answer to a result
-         nothing
+         \* never any result in answer to a result; the callbacks of the addressed feature fire
+         IF s \in LocalNames
+         THEN { WithCbf(Outcome(Consume(st, s, a.ref), NoOut, {}, "ok", Ideal), RespFired(st, s, a.ref) \cup ResFired(st, s, a.ref)) }
+         ELSE nothing
     ELSE IF s \notin LocalNames THEN err
     ELSE IF a.cls = "read" THEN
          IF s = "NM" THEN
-              IF a.pl \in NMReadable THEN { Outcome(st, OutTo(p, {Reply("NM", c, a.pl, -1)}), {}, "ok", Ideal) }
+              IF a.pl = "usecase" THEN { Outcome(st, OutTo(p, {WithUcs(Reply("NM", c, a.pl, -1), st.ucs)}), {}, "ok", Ideal) }
+              ELSE IF a.pl \in NMReadable THEN { Outcome(st, OutTo(p, {Reply("NM", c, a.pl, -1)}), {}, "ok", Ideal) }
               ELSE IF a.pl \in NMLists
               THEN { Outcome(st, OutTo(p, {ReplyList("NM", c, a.pl, ListEnts(st, p, a.pl))}), {}, "ok", Ideal) }
               ELSE err
@@ -388,8 +413,10 @@ RecvOut(st, a) ==
               IF a.pl = "usecase" THEN { Outcome(st, OutTo(p, Ack(a, s, c)), {Ev("data", a.cls, p, "", c, "")}, "ok", Ideal) }
               ELSE err
          ELSE IF a.pl \in RemoteTypeFns(c)
-         THEN { Outcome([st EXCEPT !.rdata[p] = IF c = "s14" /\ a.pl = "limit" THEN a.v ELSE @],
-                        OutTo(p, Ack(a, s, c)), {Ev("data", a.cls, p, "", c, s)}, "ok", Ideal) }
+         THEN { WithCbf(Outcome([(IF a.cls = "reply" THEN Consume(st, s, a.ref) ELSE st)
+                                    EXCEPT !.rdata[p] = IF c = "s14" /\ a.pl = "limit" THEN a.v ELSE @],
+                                OutTo(p, Ack(a, s, c)), {Ev("data", a.cls, p, "", c, s)}, "ok", Ideal),
+                        IF a.cls = "reply" THEN RespFired(st, s, a.ref) ELSE {}) }
          ELSE err
     ELSE IF a.cls = "call" THEN
          IF s = "NM" /\ a.pl \in NMLists
@@ -399,6 +426,35 @@ RecvOut(st, a) ==
          IF a.pl \in DataFns
          THEN WriteOut(st, [a |-> "write", p |-> p, c |-> c, s |-> s, fn |-> a.pl, v |-> a.v, ack |-> a.ack])
          ELSE err
+
+RecvOut(st, a) == {[o EXCEPT !.st = Answered(@, a)] : o \in RecvOut0(st, a)}
+
+(* Requests and callbacks (C14).                                            *)
+(*   lreq  [k, p]      k asks p.s14 for its limit data; returns the id      *)
+(*   addcb [k, h, cb]  response callback cb on k for id h                   *)
+(*   addrcb [k, cb]    result callback cb on k                              *)
+HName(i) == "h" \o ToString(i)
+LReqOut(st, a) ==
+    IF ~RKnown(st, a.p, "s14") THEN { Outcome(st, NoOut, {}, "nofeature", Ideal) }
+    ELSE IF st.unans[a.p] # 0 THEN { Outcome(st, NoOut, {}, HName(st.unans[a.p]), Ideal) }      \* withheld: identical request unanswered
+    ELSE { Outcome([st EXCEPT !.nid = @ + 1, !.unans[a.p] = st.nid + 1], NoOut, {}, HName(st.nid + 1), Ideal) }
+AddCbOut(st, a) ==
+    IF [k |-> a.k, h |-> a.h, cb |-> a.cb] \in st.cbs THEN { Outcome(st, NoOut, {}, "err", Ideal) }   \* same callback twice: refused
+    ELSE { Outcome([st EXCEPT !.cbs = @ \cup {[k |-> a.k, h |-> a.h, cb |-> a.cb]}], NoOut, {}, "ok", Ideal) }
+\* (a result callback may be registered any number of times; registering it again makes it fire again - not generated)
+AddRCbOut(st, a) == { Outcome([st EXCEPT !.rcbs = @ \cup {[k |-> a.k, cb |-> a.cb]}], NoOut, {}, "ok", Ideal) }
+
+(* Use cases (C20): the registry is keyed by (entity, actor, name).  Every change is a data change of the node  *)
+(* management feature and is notified to its subscribers with the complete registry.                          *)
+UcKey(x) == <<x.e, x.actor, x.name>>
+UcFanout(st, ucs) == [q \in Peers |-> {WithUcs(Notify("NM", x.c, "usecase", -1), ucs) : x \in {y \in st.subs : y.p = q /\ y.s = "NM"}}]
+UcSet(st, ucs) == { Outcome([st EXCEPT !.ucs = ucs], UcFanout(st, ucs), {}, "ok", Ideal) }
+AddUcOut(st, a) ==
+    LET new == [e |-> a.e, actor |-> a.actor, name |-> a.name, ver |-> a.ver, av |-> a.av, sc |-> a.sc]
+    IN UcSet(st, {x \in st.ucs : UcKey(x) # UcKey(new)} \cup {new})
+RemUcOut(st, a) == UcSet(st, {x \in st.ucs : UcKey(x) # <<a.e, a.actor, a.name>>})
+SetAvOut(st, a) == UcSet(st, {IF UcKey(x) = <<a.e, a.actor, a.name>> THEN [x EXCEPT !.av = a.av] ELSE x : x \in st.ucs})
+RemAllOut(st, a) == UcSet(st, {x \in st.ucs : x.e # a.e})
 
 ---------------------------------------------------------------------------
 (* Client side: a local client feature subscribes / binds to a remote      *)
@@ -440,8 +496,15 @@ Outcomes(st, a) ==
       [] a.a \in {"listsubs", "listbinds"} -> ListOut(st, a)
       [] a.a = "write"      -> WriteOut(st, a)
       [] a.a = "setdata"    -> SetDataOut(st, a)
-      [] a.a = "read"       -> RecvOut(st, [a |-> "recv", p |-> a.p, cls |-> "read", c |-> a.c, s |-> a.s, pl |-> a.fn, v |-> 0, ack |-> a.ack])
+      [] a.a = "read"       -> RecvOut(st, [a |-> "recv", p |-> a.p, cls |-> "read", c |-> a.c, s |-> a.s, pl |-> a.fn, v |-> 0, ack |-> a.ack, ref |-> 0])
       [] a.a = "recv"       -> RecvOut(st, a)
+      [] a.a = "adduc"      -> AddUcOut(st, a)
+      [] a.a = "remuc"      -> RemUcOut(st, a)
+      [] a.a = "setav"      -> SetAvOut(st, a)
+      [] a.a = "remall"     -> RemAllOut(st, a)
+      [] a.a = "lreq"       -> LReqOut(st, a)
+      [] a.a = "addcb"      -> AddCbOut(st, a)
+      [] a.a = "addrcb"     -> AddRCbOut(st, a)
       [] a.a = "lsub"       -> LSubOut(st, a)
       [] a.a = "lbind"      -> LBindOut(st, a)
       [] a.a = "lunsub"     -> LUnsubOut(st, a)
@@ -525,7 +588,7 @@ Inputs(st) ==
                          fn \in (IF R("read") THEN {"limit", "ldesc", "kv"} ELSE {"limit"}), k \in Acks("read")})
     \* classifier and payload are consistent: a result carries result data, a request does not (the rest is C05);
     \* discovery replies / notifications change the tree and are the inputs discover / entadd / entrem
-    \cup On("recv",   {x \in {[a |-> "recv", p |-> p, cls |-> cls, c |-> c, s |-> sd, pl |-> pl, v |-> 1, ack |-> k] :
+    \cup On("recv",   {x \in {[a |-> "recv", p |-> p, cls |-> cls, c |-> c, s |-> sd, pl |-> pl, v |-> 1, ack |-> k, ref |-> 0] :
                          p \in DiscP(st), cls \in {"read", "reply", "notify", "write", "call", "result"},
                          c \in (IF R("recv") THEN {"nm", "c11", "c13", "s14"} ELSE {"c11", "s14"}),
                          sd \in (IF R("recv") THEN {"NM", "DC", "S1", "S3", "S4", "K1", "X19", "X91"} ELSE {"NM", "S1", "S4", "K1", "X19"}),
@@ -534,6 +597,23 @@ Inputs(st) ==
                          k \in BOOLEAN} :
                        /\ (x.cls = "result") = (x.pl \in ResultPls)
                        /\ ~(x.pl = "discovery" /\ x.cls \in {"reply", "notify"})})
+    \* C14: requests, callback registrations, and replies / results from s14 or c11 to K1 / S1 / K2-less
+    \cup On("lreq",   {[a |-> "lreq", k |-> "K1", p |-> p] : p \in {q \in DiscP(st) : st.nid < MaxReq \/ st.unans[q] # 0}})
+    \cup On("addcb",  {[a |-> "addcb", k |-> k, h |-> h, cb |-> cb] : k \in {"K1", "S1"}, h \in 1..st.nid, cb \in {1, 2}})
+    \cup On("addrcb", {x \in {[a |-> "addrcb", k |-> k, cb |-> cb] : k \in {"K1", "S1"}, cb \in {1, 2}} :
+                          [k |-> x.k, cb |-> x.cb] \notin st.rcbs})
+    \cup On("cbrecv", {x \in {[a |-> "recv", p |-> p, cls |-> cls, c |-> c, s |-> sd, pl |-> pl, v |-> v, ack |-> FALSE, ref |-> h] :
+                                p \in DiscP(st), cls \in {"reply", "result"}, c \in {"s14", "c11"}, sd \in {"K1", "S1"},
+                                pl \in {"limit", "kv", "res0", "res1"}, v \in Vals, h \in 0..st.nid} :
+                          (x.cls = "result") = (x.pl \in ResultPls)})
+    \* C20: use cases over 2 entities x 2 actors x 2 names (re-adding an existing name, removing unknown ones included)
+    \cup On("adduc",  {[a |-> "adduc", e |-> e, actor |-> ac, name |-> n, ver |-> v, av |-> av, sc |-> sc] :
+                         e \in UcEnts, ac \in UcActors, n \in UcNames, v \in (IF R("adduc") THEN {"1.0.0", "2.0.0"} ELSE {"1.0.0"}),
+                         av \in BOOLEAN, sc \in (IF R("adduc") THEN {"1", "1,2"} ELSE {"1"})})
+    \cup On("remuc",  {[a |-> "remuc", e |-> e, actor |-> ac, name |-> n] : e \in UcEnts, ac \in UcActors, n \in UcNames})
+    \cup On("setav",  {[a |-> "setav", e |-> e, actor |-> ac, name |-> n, av |-> av] : e \in UcEnts, ac \in UcActors, n \in UcNames, av \in BOOLEAN})
+    \cup On("remall", {[a |-> "remall", e |-> e] : e \in UcEnts})
+    \cup On("readuc", {[a |-> "recv", p |-> p, cls |-> "read", c |-> "nm", s |-> "NM", pl |-> "usecase", v |-> 1, ack |-> FALSE, ref |-> 0] : p \in DiscP(st)})
     \cup On("lsub",   {[a |-> "lsub",   k |-> k, p |-> p, r |-> "s14"] : k \in (IF R("lsub") THEN {"K1", "S1"} ELSE {"K1"}), p \in (IF R("lsub") THEN Peers ELSE DiscP(st))})
     \cup On("lbind",  {[a |-> "lbind",  k |-> k, p |-> p, r |-> "s14"] : k \in (IF R("lbind") THEN {"K1", "S1"} ELSE {"K1"}), p \in (IF R("lbind") THEN Peers ELSE DiscP(st))})
     \cup On("lunsub", {[a |-> "lunsub", k |-> "K1", p |-> p, r |-> "s14"] : p \in (IF R("lunsub") THEN Peers ELSE DiscP(st))})
@@ -577,6 +657,25 @@ ReadReplyXorError(st, a, o) ==
 ResponseAddressing(st, a, o) ==
     a.a \in {"recv", "read", "write"} =>
         \A d \in Responses(o, a.p) : d.ref = "req" /\ d.dst = a.c /\ d.src = a.s
+
+\* C14: callbacks fire at most once per step, only for the addressed feature and the referenced id, and only for an
+\* accepted reply or a result; response callbacks are consumed
+CallbacksExact(st, a, o) ==
+    /\ \A f \in o.cbf : /\ a.a = "recv" /\ f.k = a.s /\ f.h = a.ref /\ a.cls \in {"reply", "result"}
+                         /\ (f.kind = "resp" => [k |-> f.k, h |-> f.h, cb |-> f.cb] \in st.cbs /\ [k |-> f.k, h |-> f.h, cb |-> f.cb] \notin o.st.cbs)
+                         /\ (f.kind = "res" => a.cls = "result" /\ [k |-> f.k, cb |-> f.cb] \in st.rcbs)
+    /\ (a.a = "recv" /\ a.cls = "result" /\ a.s \in LocalNames /\ RKnown(st, a.p, a.c)) =>
+            \A x \in st.rcbs : x.k = a.s => [k |-> x.k, cb |-> x.cb, kind |-> "res", h |-> a.ref, good |-> TRUE] \in o.cbf
+    /\ o.st.cbs \subseteq st.cbs \cup (IF a.a = "addcb" THEN {[k |-> a.k, h |-> a.h, cb |-> a.cb]} ELSE {})
+
+\* C20: operations on one entity never affect another entity's use cases; one record per (entity, actor, name)
+UseCaseIsolation(st, a, o) ==
+    a.a \in {"adduc", "remuc", "setav", "remall"} =>
+        /\ {x \in o.st.ucs : x.e # a.e} = {x \in st.ucs : x.e # a.e}
+        /\ (a.a = "adduc" => \E x \in o.st.ucs : UcKey(x) = <<a.e, a.actor, a.name>> /\ x.ver = a.ver /\ x.av = a.av /\ x.sc = a.sc)
+        /\ (a.a = "remuc" => ~\E x \in o.st.ucs : UcKey(x) = <<a.e, a.actor, a.name>>)
+        /\ (a.a = "remall" => ~\E x \in o.st.ucs : x.e = a.e)
+UseCaseKeysUnique(st) == \A x, y \in st.ucs : UcKey(x) = UcKey(y) => x = y
 
 \* C03: a write changes data / notifies / publishes only through the gate
 WriteEffectOnlyIfGate(st, a, o) ==
@@ -646,6 +745,8 @@ StepProps(st, a, o) ==
     /\ NoResultForResult(st, a, o)
     /\ ReadReplyXorError(st, a, o)
     /\ ResponseAddressing(st, a, o)
+    /\ CallbacksExact(st, a, o)
+    /\ UseCaseIsolation(st, a, o)
     /\ WriteEffectOnlyIfGate(st, a, o)
     /\ WriteAppliedIfGate(st, a, o)
     /\ FanoutExact(st, a, o)
@@ -659,4 +760,5 @@ StateProps(st) ==
     /\ AtMostOneBindingPerServer(st)
     /\ RegistryWellFormed(st)
     /\ NoDangling(st)
+    /\ UseCaseKeysUnique(st)
 =============================================================================
